@@ -196,6 +196,7 @@ class Run:
         self.ret = None
         self.ncell = 0
         self.zeros = set()
+        self.known = {}
         self.cellinit = {}
         self.nframe = 0
         self.depth = 0
@@ -216,6 +217,12 @@ class Run:
         self.conds.append((term, bool(v)))
         if not v:
             self.zeros.add(term)      # decided false: the term is 0 from here on
+        elif isinstance(term, tuple) and term[0] == "eq" and len(term) == 3:
+            # decided equal to a constant: later comparisons of that term fold
+            if is_const(term[1]) and not is_const(term[2]):
+                self.known[term[2]] = term[1]
+            elif is_const(term[2]) and not is_const(term[1]):
+                self.known[term[1]] = term[2]
         return bool(v)
 
     def truth(self, t, node=None):
@@ -503,6 +510,9 @@ class Run:
         raise Unsupported("expression kind %s at %s:%s" % (k, fr.func.file, n.get("l")))
 
     def binop(self, op, a, b):
+        if op in ("==", "!=", "<", ">", "<=", ">="):
+            a = self.known.get(a, a)
+            b = self.known.get(b, b)
         if is_const(a) and is_const(b):
             x, y = a[1], b[1]
             try:
@@ -1052,6 +1062,14 @@ class Explorer:
             return run.ev(node, fr)
         except NeedDecision:
             raise Unsupported("expression needs a decision")
+
+    @staticmethod
+    def param_field(outcome, name, field):
+        """final term of field `field` of the object held by the parameter / local called name (None if never written)"""
+        for key, cell in outcome.frame.vars.items():
+            if key == name or key.split("#")[0] == name:
+                return outcome.heap.get((("obj", cell), field))
+        return None
 
     @staticmethod
     def var(outcome, name):
